@@ -55,6 +55,21 @@ def check_step(ctx, info, doc, step, res_doc, origin):
             ctx.violation("token-moved", "a token outside the replaced ranges is not found unchanged at the mapped position",
                           dict(replay, pos=i, mapped=j, token=list(tok), found=list(new[j]) if j < len(new) else None))
             return
+    # the other side: a position whose *preceding* token is outside the replaced ranges, mapped with assoc = -1, still has
+    # that token before it (Props/C03.lean: mapped_position_same_content_left / _around_left, markup_map_both_sides)
+    for i, tok in enumerate(old):
+        if i in covered:
+            continue
+        j = m.map(i + 1, -1)
+        ctx.count("left_assoc_positions")
+        if ranges:
+            same = 1 <= j <= len(new) and new[j - 1] == tok
+        else:
+            same = j == i + 1 and new[j - 1][0] == tok[0] and (tok[0] != "u" or new[j - 1][1] == tok[1])
+        if not same:
+            ctx.violation("token-moved-left", "a token outside the replaced ranges is not found unchanged before the position mapped with assoc -1",
+                          dict(replay, pos=i + 1, mapped=j, token=list(tok), found=list(new[j - 1]) if 1 <= j <= len(new) else None))
+            return
 
 
 def run(ctx):
